@@ -202,3 +202,10 @@ def c_rest(ctx, it, cfg):
 from . import c08 as _c08
 REG.contracts.append(_c08.c_change.contract)
 REG.contracts.append(_c08.c_add.contract)
+
+# grid extension after a re-mesh: shared bounded stand-in (objects reached from the real constructor)
+REG.contracts.append(_c08.c_add_history.contract)
+
+# the balance of the NEXT step reads the interfacial-composition tables: they must follow every grid change of every phase (contract shared with C13)
+from . import c13 as _c13
+REG.contracts.append(_c13.c_update_psd.contract)
